@@ -636,7 +636,7 @@ class Expander:
             if r.get("decl") not in owner.single:
                 return None
         top = owner.fn.nodes[owner.fn.strip(owner.single[r["decl"]])]
-        h = self.prog.fns.get(top.get("lusr")) if top.get("k") == "lambda" else None
+        h = self.prog.closure_fn(top.get("lusr")) if top.get("k") == "lambda" else None
         if h is None:
             return None
         rets = [m for m in h.nodes if m["k"] == "return"]
@@ -1119,16 +1119,82 @@ def readdir_classification(ctx, tag):
         par = next(iter(rd.ancestors(i)), None)
         sib = rd.nodes[par].get("kids", []) if par is not None and rd.nodes[par]["k"] == "compound" else []
         pushed = any(any(x in pushes for x in rd.walk(k_)) for k_ in sib[:sib.index(i)]) if i in sib else False
+        # a continue AFTER the stat fallback (the entry vanished between readdir and fstatat, say) is not about classification: the
+        # fallback is unconditional in the loop body, so everything behind it in the body has been through it
+        body = rd.nodes[L].get("body")
+        bk = rd.nodes[body].get("kids", []) if isinstance(body, int) and body >= 0 and rd.nodes[body]["k"] == "compound" else []
+        pos_of_ = lambda x: next((j for j, k_ in enumerate(bk) if k_ == x or x in set(rd.walk(k_))), None)
+        after_stat = any(pos_of_(s_) is not None and pos_of_(i) is not None and pos_of_(s_) <= pos_of_(i) and s_ < i for s_ in stats)
+        if after_stat:
+            continue
         ctx.check(hidden or pushed, "%s:readdir-unknown-type-reaches-stat:continue@%d" % (tag, rd.nodes[i].get("line", 0)), "must-pass-through (continue sites)", rd.loc(i),
                   "the entry is skipped because it is hidden, or was classified by d_type just before",
                   "Fs::readDirFromDIR skips to the next entry at line %d without having classified this one and without the fstatat fallback: on a file system that "
                   "reports DT_UNKNOWN (or anything the fast path does not know) the entry is silently dropped - child cgroups disappear from the listing"
                   % rd.nodes[i].get("line", 0))
+    def _in_branch(a, x):
+        an = rd.nodes[a]
+        if an["k"] == "switch":
+            return True
+        for key in ("then", "else", "t", "f"):
+            b_ = an.get(key)
+            if isinstance(b_, int) and b_ >= 0 and (b_ == x or x in set(rd.walk(b_))):
+                return True
+        return False
     for s_ in stats:
-        conds = [a for a in list(rd.ancestors(s_)) if rd.nodes[a]["k"] in ("if", "switch", "cond")]
+        conds = [a for a in list(rd.ancestors(s_)) if rd.nodes[a]["k"] in ("if", "switch", "cond") and _in_branch(a, s_)]
         inside = [a for a in conds if L in list(rd.ancestors(a))]
         ctx.check(not inside, "%s:readdir-unknown-type-reaches-stat:fallback@%d" % (tag, rd.nodes[s_].get("line", 0)), "must-pass-through (continue sites)", rd.loc(s_),
                   "the stat fallback is unconditional in the loop body", "the stat fallback of Fs::readDirFromDIR sits under a condition: entries that fail it are never classified")
+
+
+
+def const_int(fn, i):
+    """Integer value of expression i if the front end could fold it (literals, constexpr names, arithmetic over them, - and ~ of those,
+    looking through integral casts)."""
+    n = fn.nodes[fn.strip(i)]
+    if "cval" in n:
+        return int(n["cval"])
+    if n["k"] == "lit" and n.get("lk") in ("int", "integer") or (n["k"] == "lit" and re.match(r"^-?(0[xX][0-9a-fA-F]+|\d+)[uUlL]*$", str(n.get("v", "")))):
+        try:
+            return int(re.sub(r"[uUlL]+$", "", str(n.get("v"))), 0)
+        except ValueError:
+            return None
+    if n["k"] == "un" and n.get("op") in ("-", "~"):
+        v = const_int(fn, n["sub"])
+        if v is None:
+            return None
+        return -v if n["op"] == "-" else ~v
+    if n["k"] == "cast" and n.get("ck") in ("IntegralCast", "NoOp", "LValueToRValue") and "sub" in n:
+        return const_int(fn, n["sub"])
+    if n["k"] == "paren" and "sub" in n:
+        return const_int(fn, n["sub"])
+    return None
+
+
+def inlined_condition_paths(fn, cn, call_node, want):
+    """For a condition that is a folded helper call (`if (!helper(x))`, node class InlinedCall with its exits recorded): the lexical
+    facts under which the folded body makes the condition evaluate to `want` - one list of (key, polarity) per such exit.  An exit that
+    returns a literal of the other polarity is left out; an exit returning an expression contributes that expression with polarity `want`."""
+    out = []
+    for r in fn.nodes[call_node].get("rets", []):
+        rn = fn.nodes[r]
+        val = (rn.get("kids") or [None])[0]
+        facts = []
+        if val is not None and val >= 0:
+            vn = fn.nodes[fn.strip(val)]
+            if vn["k"] == "lit" and vn.get("lk") == "bool":
+                if (vn.get("v") == "true") != want:
+                    continue
+            else:
+                facts += cn.decompose(val, want)
+        for a in fn.ancestors(r):
+            an = fn.nodes[a]
+            if an["k"] == "if" and "c" in an:
+                in_then = an.get("then") is not None and (an["then"] == r or r in set(fn.walk(an["then"])))
+                facts += cn.decompose(an["c"], in_then)
+        out.append(facts)
+    return out
 
 
 def locals_receiving(fn, pattern, text=None):
